@@ -26,6 +26,13 @@ def coverage_cells(quick=True):
                 # asymptotic towers (all logs): evolution order = top
                 cells.append(dict(kind=kind, proc=proc, fns="FFN0", nfff=3, pto=top, ptoEvol=min(top, 2 if kind == "g1" else 3),
                                   Q2=4.0 * ratio, x=0.05, flav="total", nf=3, ratio=ratio))
+            if proc == "CC":
+                # the ends of the mass-ratio range (lambda = Q2/(Q2+m2) -> 0 and -> 1): far below the heavy-quark mass the
+                # slow-rescaling point x (1 + m2/Q2) only fits for small x (own grid), far above it the massless limit is close
+                cells.append(dict(kind=kind, proc=proc, fns="FFNS", nfff=3, pto=min(top, 2), ptoEvol=min(top, 2), Q2=4.0 * 0.004, x=1e-3,
+                                  flav="total", nf=3, ratio=0.004, xmin=1e-4))
+                cells.append(dict(kind=kind, proc=proc, fns="FFNS", nfff=3, pto=min(top, 2), ptoEvol=min(top, 2), Q2=4.0 * 5000.0, x=0.05,
+                                  flav="charm", nf=3, ratio=5000.0))
             if not quick:
                 cells.append(dict(kind=kind, proc=proc, fns="FFNS", nfff=4, pto=top, ptoEvol=top, Q2=250.0, x=0.05, flav="total", nf=4, ratio=10.0))
                 cells.append(dict(kind=kind, proc=proc, fns="FFN0", nfff=5, pto=top, ptoEvol=2, Q2=1440.0, x=0.05, flav="total", nf=5, ratio=10.0))
@@ -38,7 +45,7 @@ def make_element(cell, xgrid=None):
 
     th = cards.theory(PTO=cell["ptoEvol"], PTODIS=cell["pto"], FNS=cell["fns"], NfFF=cell["nfff"], mc=2.0, mb=5.0, mt=12.0, Q0=1.0)
     name = f"{cell['kind']}_{cell['flav']}"
-    xg = xgrid or cards.make_grid(4, 4, x_min=1e-2)
+    xg = xgrid or cards.make_grid(4, 4, x_min=cell.get("xmin", 1e-2))
     ob = cards.obs({name: [dict(x=cell["x"], Q2=cell["Q2"])]}, xgrid=xg, deg=3, prDIS=cell["proc"],
                    ProjectileDIS="neutrino" if cell["proc"] == "CC" else "electron", PolarizationDIS=0.3 if cell["proc"] == "NC" else 0.0)
     r = yr.Runner(th, ob)
